@@ -28,7 +28,7 @@ CFG_MIX = {
 CFG_NEST = {"values": (3,), "templates": ("mul2", "add", "abs", "round1"), "iops": (("add", ("lit", 1)),), "unreg": True,
             "extra": [("freeze",), ("unfreeze",)]}     # a manager can be pickled while its tree is frozen
 # builtins with ref parameters, keyword order, string arguments; load() leaves values that disagree with their definitions
-CFG_PARAM = {"values": (3,), "templates": ("mul2", "roundr", "kw2", "unit"), "unreg": True, "leaves_n": 4, "loads": 6}
+CFG_PARAM = {"values": (3,), "templates": ("mul2", "roundr", "kw2", "unit", "litneg"), "unreg": True, "leaves_n": 4, "loads": 6}
 ALPHABETS = {"mix": CFG_MIX, "nest": CFG_NEST, "param": CFG_PARAM}
 
 
@@ -69,6 +69,12 @@ class System(ManagerSystem):
     def followups(self, ns):
         fk = mgr.task_regions(ns)
         out = []
+        # first (while the definitions are still there): an in-place update of an expression-defined location - the restored
+        # expression objects are combined into new ones and asked for their dependencies again
+        for L in self.world["leaves"]:
+            if ("E", L) in ns.tasks and not any(T.overlap(L, w) for w in fk):
+                out.append(("iop", L, "mul", ("lit", 3)))
+                break
         for L in self.world["leaves"]:
             if any(T.overlap(L, w) for w in fk):
                 continue
